@@ -3,8 +3,29 @@
 // bit-identical to the single-threaded one is reported as `!oracle thread-dependence`.
 // Also: concurrent shared copies / subsets of one dataset from several threads.
 // The same source is compiled a second time with clang + ThreadSanitizer (+ Archer).
-// Input lines: `case <seed> <n> <d> <batch> <reps>`; one output line per routine.
+// Input lines: `case <seed> <n> <d> <batch> <reps>`; one output line per routine, naming the thread
+// counts, the loop schedule of the build (static = the library's own pragma; dynamic = the same region
+// bodies compiled with `schedule(dynamic,1)`, variant -DC20_DYNAMIC) and the number of perturbed runs
+// (a loss that spins/yields per thread so that the order of entry into the critical sections varies).
+// Correspondence ops (compared exactly with the Lean driver drv_c20):
+//   `split <B> <T>`                 the batch ranges the real ErrorFunction::eval hands to its threads
+//   `knn <T> <k> <bs> | <x_1 .. x_n>`  brute-force neighbour search of the query 0 among the 1-d points x_i
+#include <shark/Core/OpenMP.h>
+#ifdef C20_DYNAMIC
+#undef SHARK_PARALLEL_FOR
+#define SHARK_PARALLEL_FOR _Pragma("omp parallel for schedule(dynamic,1)") for
+#define C20_SCHED "dynamic"
+#else
+#define C20_SCHED "static"
+#endif
 #include <shark/ObjectiveFunctions/ErrorFunction.h>
+#include <shark/ObjectiveFunctions/NegativeLogLikelihood.h>
+#include <shark/Algorithms/Trainers/RFTrainer.h>
+#include <shark/Algorithms/DirectSearch/Operators/Hypervolume/HypervolumeContributionApproximator.h>
+#include <shark/Models/Kernels/ArdKernel.h>
+#include <shark/Models/DropoutLayer.h>
+#include <shark/Models/Kernels/KernelExpansion.h>
+#include <shark/Models/RBFLayer.h>
 #include <shark/ObjectiveFunctions/Loss/SquaredLoss.h>
 #include <shark/ObjectiveFunctions/Loss/AbsoluteLoss.h>
 #include <shark/ObjectiveFunctions/KernelTargetAlignment.h>
@@ -31,6 +52,7 @@
 using namespace shark;
 
 static const int THREADS[] = {1, 2, 3, 4, 8, 16};
+static int g_perturb = 0;          // > 0: plugged-in components spin/yield per thread (changes the critical-section order)
 
 static std::string bits(double x){ std::uint64_t u; std::memcpy(&u, &x, 8); std::ostringstream os; os << std::hex << u; return os.str(); }
 template<class V> std::string vecbits(V const& v){ std::string s; for(std::size_t i = 0; i != v.size(); ++i){ s += bits(v(i)); s += ","; } return s; }
@@ -39,16 +61,55 @@ static std::string shorten(std::string const& s){ // FNV-1a of the exact renderi
 	std::uint64_t h = 1469598103934665603ULL; for(unsigned char c: s){ h ^= c; h *= 1099511628211ULL; }
 	std::ostringstream os; os << std::hex << h << "/" << s.size(); return os.str(); }
 
-// run f() under every thread count, `reps` times; compare the exact rendering with threads=1
+static void perturb(){
+	if(!g_perturb) return;
+	int tid = omp_get_thread_num();
+	int spins = ((tid * 7 + g_perturb * 13) % 5) * 1500;
+	for(volatile int i = 0; i < spins; ++i){}
+	if((tid + g_perturb) % 2) sched_yield();
+}
+// squared loss that perturbs the schedule (same values as SquaredLoss)
+struct YieldLoss : public SquaredLoss<>{
+	using SquaredLoss<>::eval; using SquaredLoss<>::evalDerivative;
+	double eval(BatchLabelType const& t, BatchOutputType const& p) const{ perturb(); return SquaredLoss<>::eval(t, p); }
+	double evalDerivative(BatchLabelType const& t, BatchOutputType const& p, BatchOutputType& g) const{ perturb(); return SquaredLoss<>::evalDerivative(t, p, g); }
+};
+// loss that records which thread evaluated which batch (batch id = first label value); value 0
+struct RecordingLoss : public SquaredLoss<>{
+	using SquaredLoss<>::eval;
+	// element-wise evaluation (used by the weighted error function): same record
+	double eval(ConstLabelReference t, ConstOutputReference p) const{
+		int b = (int)t(0), th = omp_get_thread_num();
+		#pragma omp critical (c20RecordingLoss)
+		log.push_back(std::make_pair(th, b));
+		return 0.0;
+	}
+	mutable std::vector<std::pair<int,int> > log;   // (thread, batch), appended under a lock of its own
+	double eval(BatchLabelType const& t, BatchOutputType const& p) const{
+		int b = (int)t(0,0), th = omp_get_thread_num();
+		#pragma omp critical (c20RecordingLoss)
+		log.push_back(std::make_pair(th, b));
+		return 0.0;
+	}
+};
+
+static std::string threadList(int maxT = 16, int minBatches = -1){
+	std::string s; for(int t: THREADS){ if(t > maxT) continue; if(!s.empty()) s += ","; s += std::to_string(t); } return s; }
+
+// run f() under every thread count, `reps` times plain and `reps` times perturbed; compare the exact rendering with
+// threads=1.  `oracle` (optional): independent expected rendering.  `allow(t)`: thread counts to run.
 template<class F>
-void sweep(char const* name, int reps, F f){
-	omp_set_num_threads(1);
+void sweepX(char const* name, int reps, F f, std::string const* oracle = 0, int maxThreads = 16){
+	omp_set_num_threads(1); g_perturb = 0;
 	std::string ref = f();
 	std::string bad;
-	int runs = 0;
+	if(oracle && *oracle != ref){ bad = std::string(" !oracle wrong-result routine=") + name + " threads=1"; }
+	int runs = 0, pert = 0;
 	for(int t: THREADS){
+		if(t > maxThreads) continue;
 		omp_set_num_threads(t);
-		for(int r = 0; r < reps; ++r){
+		for(int r = 0; r < 2 * reps; ++r){
+			g_perturb = (r >= reps) ? 1 + r + t : 0; if(g_perturb) ++pert;
 			++runs;
 			std::string got = f();
 			if(got != ref && bad.empty()){
@@ -56,40 +117,142 @@ void sweep(char const* name, int reps, F f){
 			}
 		}
 	}
-	std::cout << "routine=" << name << " runs=" << runs << " result=" << shorten(ref) << bad << "\n";
+	g_perturb = 0;
+	std::cout << "routine=" << name << " runs=" << runs << " threads=" << threadList(maxThreads) << " sched=" C20_SCHED << " perturbed=" << pert
+	          << " oracle=" << (oracle ? "independent+1thread" : "1thread") << " result=" << shorten(ref) << bad << "\n";
 }
+template<class F> void sweep(char const* name, int reps, F f){ sweepX(name, reps, f); }
+template<class F> void sweepO(char const* name, int reps, F f, std::string const& oracle){ sweepX(name, reps, f, &oracle); }
 
 // tolerant variant for routines whose partial sums are not exactly representable
 // (the property allows "up to floating-point reassociation"): relative 1e-12
 template<class F>
-void sweepTol(char const* name, int reps, F f){
-	omp_set_num_threads(1);
+void sweepTol(char const* name, int reps, F f, char const* tag = "thread-dependence-beyond-reassociation"){
+	omp_set_num_threads(1); g_perturb = 0;
 	std::vector<double> ref = f();
-	std::string bad; int runs = 0;
+	std::string bad; int runs = 0, pert = 0;
 	for(int t: THREADS){
 		omp_set_num_threads(t);
-		for(int r = 0; r < reps; ++r){
+		for(int r = 0; r < 2 * reps; ++r){
+			g_perturb = (r >= reps) ? 1 + r + t : 0; if(g_perturb) ++pert;
 			++runs;
 			std::vector<double> got = f();
 			bool ok = got.size() == ref.size();
 			for(std::size_t i = 0; ok && i != ref.size(); ++i)
-				if(!(std::fabs(got[i]-ref[i]) <= 1e-12 * (1.0 + std::fabs(ref[i])))) ok = false;
+				if(!(std::fabs(got[i]-ref[i]) <= 1e-12 * (1.0 + std::fabs(ref[i]))) && !(std::isnan(got[i]) && std::isnan(ref[i]))) ok = false;
 			if(!ok && bad.empty()){
-				std::ostringstream os; os << " !oracle thread-dependence-beyond-reassociation routine=" << name << " threads=" << t << " rep=" << r; bad = os.str();
+				std::ostringstream os; os << " !oracle " << tag << " routine=" << name << " threads=" << t << " rep=" << r; bad = os.str();
 			}
 		}
 	}
-	std::cout << "routine=" << name << " runs=" << runs << " result=toleranced(1e-12)" << bad << "\n";
+	g_perturb = 0;
+	std::cout << "routine=" << name << " runs=" << runs << " threads=" << threadList() << " sched=" C20_SCHED << " perturbed=" << pert
+	          << " oracle=1thread result=toleranced(1e-12)" << bad << "\n";
 }
 
 struct AddOne{ typedef RealVector result_type; RealVector operator()(RealVector const& x) const{ RealVector y = x; for(std::size_t i = 0; i != y.size(); ++i) y(i) += 1; return y; } };
-struct BatchDouble{ typedef RealMatrix result_type; RealMatrix operator()(RealMatrix const& x) const{ return RealMatrix(2.0 * x); } };
+struct BatchDouble{ typedef RealMatrix result_type; RealMatrix operator()(RealMatrix const& x) const{ perturb(); return RealMatrix(2.0 * x); } };
+
+template<class Forest> std::string forestTrees(Forest const& model, bool sorted){
+	std::vector<std::string> trees;
+	for(std::size_t i = 0; i != model.numberOfModels(); ++i){
+		std::ostringstream ss; { TextOutArchive oa(ss, boost::archive::no_header); model.model(i).write(oa); }
+		trees.push_back(ss.str());
+	}
+	if(sorted) std::sort(trees.begin(), trees.end());
+	std::string s; for(auto const& t: trees){ s += t; s += "#"; } return s;
+}
+
+// ---- correspondence ops
+static void opSplit(std::size_t B, std::size_t T){
+	std::vector<RealVector> xs(B, RealVector(1, 0.0)), ys(B, RealVector(1));
+	for(std::size_t i = 0; i != B; ++i) ys[i](0) = double(i);
+	RegressionDataset reg = createLabeledDataFromRange(xs, ys, 1);
+	LinearModel<> model(1, 1, false); RecordingLoss rl;
+	ErrorFunction<> E(reg, &model, &rl);
+	omp_set_num_threads((int)T);
+	RealVector p(1, 0.0); E.eval(p);
+	// thread id = loop index under the static schedule (one iteration per thread)
+	std::vector<std::vector<int> > per(T);
+	std::string bad; std::vector<int> seen(B, 0);
+	for(auto const& e: rl.log){ if(e.first < (int)T) per[e.first].push_back(e.second); if(e.second >= 0 && e.second < (int)B) ++seen[e.second]; }
+	for(std::size_t b = 0; b != B; ++b) if(seen[b] != 1) bad = " !oracle batch-not-exactly-once split=" + std::to_string(B) + "/" + std::to_string(T);
+	std::cout << "split B=" << B << " T=" << T << " ranges=";
+	std::size_t nt = std::min(T, B), next = 0;
+	for(std::size_t t = 0; t != nt; ++t){
+		std::sort(per[t].begin(), per[t].end());
+		std::size_t lo = per[t].empty() ? next : per[t].front(), hi = per[t].empty() ? next : per[t].back() + 1;
+		if(hi - lo != per[t].size() || lo != next) bad = " !oracle ranges-not-consecutive split=" + std::to_string(B) + "/" + std::to_string(T);
+		next = hi;
+		std::cout << (t ? "," : "") << lo << "-" << hi;
+	}
+	std::cout << bad << "\n";
+}
+// weighted error function: one iteration per batch, any schedule: every batch must be evaluated exactly once
+static void opSplitW(std::size_t B, std::size_t T){
+	std::vector<RealVector> xs(B, RealVector(1, 0.0)), ys(B, RealVector(1));
+	for(std::size_t i = 0; i != B; ++i) ys[i](0) = double(i);
+	RegressionDataset reg = createLabeledDataFromRange(xs, ys, 1);
+	WeightedLabeledData<RealVector,RealVector> wd(reg, 1.0);
+	LinearModel<> model(1, 1, false); RecordingLoss rl;
+	ErrorFunction<> E(wd, &model, &rl);
+	omp_set_num_threads((int)T);
+	RealVector p(1, 0.0); E.eval(p);
+	std::vector<int> seen(B, 0); std::string bad; std::size_t threadsUsed = 0; std::vector<int> used(64, 0);
+	for(auto const& e: rl.log){ if(e.second >= 0 && e.second < (int)B) ++seen[e.second]; if(e.first >= 0 && e.first < 64 && !used[e.first]){ used[e.first] = 1; ++threadsUsed; } }
+	std::size_t covered = 0; for(std::size_t b = 0; b != B; ++b){ if(seen[b] == 1) ++covered; else bad = " !oracle batch-not-exactly-once splitw=" + std::to_string(B) + "/" + std::to_string(T); }
+	if(threadsUsed > T) bad = " !oracle more-threads-than-allowed";
+	std::cout << "splitw B=" << B << " T=" << T << " covered=" << covered << bad << "\n";
+}
+static void opKnn(std::size_t T, std::size_t k, std::size_t bs, std::vector<long> const& x){
+	std::size_t n = x.size();
+	std::vector<RealVector> xs(n, RealVector(1)); std::vector<unsigned int> cls(n, 0);
+	for(std::size_t i = 0; i != n; ++i){ xs[i](0) = double(x[i]); cls[i] = (unsigned)i; }
+	ClassificationDataset cl = createLabeledDataFromRange(xs, cls, bs);
+	LinearKernel<RealVector> lk; SimpleNearestNeighbors<RealVector,unsigned int> nn(cl, &lk);
+	RealMatrix q(1, 1, 0.0);
+	omp_set_num_threads((int)T);
+	auto r = nn.getNeighbors(q, k);
+	// independent oracle: sort all squared distances
+	std::vector<double> all; for(long v: x) all.push_back(std::sqrt(double(v) * double(v))); std::sort(all.begin(), all.end());
+	std::string bad;
+	std::cout << "knn T=" << T << " k=" << k << " batches=" << cl.numberOfBatches() << " keys=";
+	for(std::size_t i = 0; i != r.size(); ++i){
+		std::cout << (i ? "," : "") << vh::exactDouble(r[i].key);
+		if(i >= all.size() || r[i].key != all[i]) bad = " !oracle not-k-nearest";
+		else if(std::fabs(double(x[r[i].value])) != r[i].key) bad = " !oracle label-distance-mismatch";
+	}
+	std::cout << bad << "\n";
+}
 
 int main(){
+	std::cout.setf(std::ios::unitbuf);
 	std::string line; std::vector<std::size_t> a;
 	while(std::getline(std::cin, line)){
 		std::vector<std::string> t = vh::tokens(line);
 		if(t.empty()) continue;
+		if(t[0] == "split" && vh::allNat(t, 1, a) && a.size() == 2 && a[0] >= 1 && a[1] >= 1){ opSplit(a[0], a[1]); continue; }
+		if(t[0] == "splitw" && vh::allNat(t, 1, a) && a.size() == 2 && a[0] >= 1 && a[1] >= 1){ opSplitW(a[0], a[1]); continue; }
+		if(t[0] == "knn" && t.size() >= 6 && t[4] == "|"){
+			std::vector<std::string> h(t.begin() + 1, t.begin() + 4); std::vector<long> x; bool ok = vh::allNat(h, 0, a) && a.size() == 3;
+			for(std::size_t i = 5; ok && i < t.size(); ++i){ try{ x.push_back(std::stol(t[i])); } catch(...){ ok = false; } }
+			if(ok && a[0] >= 1 && a[1] >= 1 && a[1] <= x.size() && a[2] >= 1){ opKnn(a[0], a[1], a[2], x); continue; }
+			std::cout << "bad-op\n"; continue;
+		}
+		if(t[0] == "dropout" && vh::allNat(t, 1, a) && a.size() == 1 && a[0] >= 1){
+			// a network with a DropoutLayer (default generator = the process-wide one) inside the parallel error function
+			std::size_t n = 24, d = 3;
+			std::vector<RealVector> xs(n, RealVector(d, 1.0)), ys(n, RealVector(2, 1.0));
+			RegressionDataset reg = createLabeledDataFromRange(xs, ys, 3);
+			LinearModel<> l1(d, 2, true); DropoutLayer<> drop(Shape({2}), 0.5);
+			ConcatenatedModel<RealVector> net = l1 >> drop;
+			SquaredLoss<> loss; ErrorFunction<> E(reg, &net, &loss);
+			RealVector p(net.numberOfParameters(), 1.0), g;
+			omp_set_num_threads((int)a[0]);
+			double v = E.eval(p) + E.evalDerivative(p, g);
+			std::cout << "routine=ErrorFunction[dropout,global-rng] runs=2 threads=" << a[0] << " sched=" C20_SCHED << " perturbed=0 oracle=none result=" << (v == v ? "finite" : "nan") << "\n";
+			continue;
+		}
 		if(t[0] != "case" || !vh::allNat(t, 1, a) || a.size() != 5){ std::cout << "bad-op\n"; continue; }
 		vh::SplitMix64 rng(a[0]);
 		std::size_t n = a[1], d = a[2], bs = a[3]; int reps = (int)a[4];
@@ -100,6 +263,7 @@ int main(){
 			ys[i](0) = double(rng.below(7)) - 3.0; ys[i](1) = double(rng.below(5)); cls[i] = (unsigned)rng.below(3);
 			w[i] = double(1 + rng.below(3));
 		}
+		if(n >= 3){ cls[0] = 0; cls[1] = 1; cls[2] = 2; }
 		RegressionDataset reg = createLabeledDataFromRange(xs, ys, bs);
 		ClassificationDataset cl = createLabeledDataFromRange(xs, cls, bs);
 		Data<RealVector> inputs = createDataFromRange(xs, bs);
@@ -108,31 +272,54 @@ int main(){
 		LinearModel<> model(d, 2, true);
 		RealVector p(model.numberOfParameters());
 		for(std::size_t i = 0; i != p.size(); ++i) p(i) = double(rng.below(5)) - 2.0;
-		SquaredLoss<> loss;
-		{	ErrorFunction<> E(reg, &model, &loss);
-			sweep("ErrorFunction.eval", reps, [&]{ return bits(E.eval(p)); });
+		SquaredLoss<> loss; YieldLoss yloss;
+		// independent oracle for the (weighted) mean squared error of the linear model on integer data: plain loops
+		double handSum = 0, handW = 0, handWSum = 0;
+		{	model.setParameterVector(p);
+			for(std::size_t i = 0; i != n; ++i){
+				double e = 0;
+				for(std::size_t o = 0; o != 2; ++o){ double v = model.offset()(o); for(std::size_t c = 0; c != d; ++c) v += model.matrix()(o,c) * xs[i](c); e += (v - ys[i](o)) * (v - ys[i](o)); }
+				handSum += 0.5 * e; handWSum += w[i] * 0.5 * e; handW += w[i];
+			}
+		}
+		{	ErrorFunction<> E(reg, &model, &yloss);
+			sweepO("ErrorFunction.eval", reps, [&]{ return bits(E.eval(p)); }, bits(handSum / double(n)));
 			sweep("ErrorFunction.evalDerivative", reps, [&]{ RealVector g; double v = E.evalDerivative(p, g); return bits(v) + "|" + vecbits(g); });
 		}
 		{	WeightedLabeledData<RealVector,RealVector> wd(reg, 1.0);
 			std::size_t q = 0;
 			for(auto&& e: wd.elements()){ e.weight = w[q++]; }
 			ErrorFunction<> E(wd, &model, &loss);
-			sweep("WeightedErrorFunction.eval", reps, [&]{ return bits(E.eval(p)); });
+			sweepO("WeightedErrorFunction.eval", reps, [&]{ return bits(E.eval(p)); }, bits(handWSum / handW));
 			sweep("WeightedErrorFunction.evalDerivative", reps, [&]{ RealVector g; double v = E.evalDerivative(p, g); return bits(v) + "|" + vecbits(g); });
 		}
 		{	model.setParameterVector(p);
 			Data<RealVector> pred = model(reg.inputs());
 			AbsoluteLoss<> al;
-			sweep("AbstractLoss.eval(Data,Data)", reps, [&]{ return bits(loss.eval(reg.labels(), pred)); });
+			sweepO("AbstractLoss.eval(Data,Data)", reps, [&]{ return bits(yloss.eval(reg.labels(), pred)); }, bits(handSum / double(n)));
 			// AbsoluteLoss takes a square root per element: sums are not exact
 			sweepTol("AbsoluteLoss.eval(Data,Data)", reps, [&]{ return std::vector<double>(1, al.eval(reg.labels(), pred)); });
+			// a loss on class labels over datasets (cross entropy of the linear model's outputs: exp/log, toleranced)
+			LinearModel<> m3(d, 3, true); RealVector p3(m3.numberOfParameters());
+			for(std::size_t i = 0; i != p3.size(); ++i) p3(i) = (double(rng.below(9)) - 4.0) / 8.0;
+			m3.setParameterVector(p3);
+			Data<RealVector> pred3 = m3(cl.inputs()); CrossEntropy<unsigned int, RealVector> ce;
+			sweepTol("CrossEntropy.eval(Data,Data)", reps, [&]{ return std::vector<double>(1, ce.eval(cl.labels(), pred3)); });
 		}
 		{	PolynomialKernel<RealVector> k(2, 1.0, false);   // degree fixed => advertises the parameter derivative
-			sweep("calculateRegularizedKernelMatrix", reps, [&]{ RealMatrix K = calculateRegularizedKernelMatrix(k, inputs, 1.0); return matbits(K); });
-			Data<RealVector> in2 = createDataFromRange(std::vector<RealVector>(xs.begin(), xs.begin() + (n+1)/2), bs > 1 ? bs-1 : 1);
-			sweep("calculateMixedKernelMatrix", reps, [&]{ RealMatrix K = calculateMixedKernelMatrix(k, inputs, in2); return matbits(K); });
+			// independent oracle: every entry by a single kernel evaluation (integer data: exact)
+			std::string gram;
+			for(std::size_t i = 0; i != n; ++i) for(std::size_t j = 0; j != n; ++j){ gram += bits(k.eval(xs[i], xs[j]) + (i == j ? 1.0 : 0.0)); gram += ","; }
+			sweepO("calculateRegularizedKernelMatrix", reps, [&]{ RealMatrix K = calculateRegularizedKernelMatrix(k, inputs, 1.0); return matbits(K); }, gram);
+			std::size_t n2 = (n+1)/2;
+			Data<RealVector> in2 = createDataFromRange(std::vector<RealVector>(xs.begin(), xs.begin() + n2), bs > 1 ? bs-1 : 1);
+			std::string mixed;
+			for(std::size_t i = 0; i != n; ++i) for(std::size_t j = 0; j != n2; ++j){ mixed += bits(k.eval(xs[i], xs[j])); mixed += ","; }
+			sweepO("calculateMixedKernelMatrix", reps, [&]{ RealMatrix K = calculateMixedKernelMatrix(k, inputs, in2); return matbits(K); }, mixed);
 			KernelMatrix<RealVector,double> km(k, inputs);
-			sweep("KernelMatrix.row", reps, [&]{ std::vector<double> st(n); std::string s; for(std::size_t i = 0; i < n; i += (n/4)+1){ km.row(i, 0, n, &st[0]); for(double v: st){ s += bits(v); s += ","; } } return s; });
+			std::string rows;
+			for(std::size_t i = 0; i < n; i += (n/4)+1) for(std::size_t j = 0; j != n; ++j){ rows += bits(k.eval(xs[i], xs[j])); rows += ","; }
+			sweepO("KernelMatrix.row", reps, [&]{ std::vector<double> st(n); std::string s; for(std::size_t i = 0; i < n; i += (n/4)+1){ km.row(i, 0, n, &st[0]); for(double v: st){ s += bits(v); s += ","; } } return s; }, rows);
 			KernelTargetAlignment<RealVector,unsigned int> kta(cl, &k);
 			RealVector kp = k.parameterVector();
 			sweep("KernelTargetAlignment.eval", reps, [&]{ return bits(kta.eval(kp)); });
@@ -142,17 +329,33 @@ int main(){
 			// the comparison allows floating-point reassociation; a shared scratch buffer shows as a large
 			// difference and, under ThreadSanitizer, as a race)
 			PolynomialKernel<RealVector> pk(2, 1.0, false); LinearKernel<RealVector> lin; GaussianRbfKernel<RealVector> gk(0.25);
-			NormalizedKernel<RealVector> nk(&pk); ScaledKernel<RealVector> sk(&pk, 2.0);
+			NormalizedKernel<RealVector> nk(&pk); ScaledKernel<RealVector> sk(&pk, 2.0); ARDKernelUnconstrained<RealVector> ard((unsigned)d, 0.125);
 			std::vector<AbstractKernelFunction<RealVector>*> parts; parts.push_back(&pk); parts.push_back(&gk);
 			WeightedSumKernel<RealVector> wk(parts); ProductKernel<RealVector> prk(&lin, &gk);
-			AbstractKernelFunction<RealVector>* ks[] = {&nk, &gk, &sk, &wk, &prk};
-			char const* names[] = {"Gram[normalized]", "Gram[gaussian]", "Gram[scaled]", "Gram[weightedsum]", "Gram[product]"};
-			for(int q = 0; q != 5; ++q){
+			AbstractKernelFunction<RealVector>* ks[] = {&nk, &gk, &sk, &wk, &prk, &ard};
+			char const* names[] = {"Gram[normalized]", "Gram[gaussian]", "Gram[scaled]", "Gram[weightedsum]", "Gram[product]", "Gram[ard]"};
+			for(int q = 0; q != 6; ++q){
 				AbstractKernelFunction<RealVector>* kk = ks[q];
 				sweepTol(names[q], reps, [&]{ RealMatrix K = calculateRegularizedKernelMatrix(*kk, inputs, 0.5); std::vector<double> r; for(std::size_t i = 0; i != K.size1(); ++i) for(std::size_t j = 0; j != K.size2(); ++j) r.push_back(K(i,j)); return r; });
 			}
 			KernelMatrix<RealVector,double> km(nk, inputs);
 			sweepTol("KernelMatrix.row[normalized]", reps, [&]{ std::vector<double> st(n), r; for(std::size_t i = 0; i < n; i += (n/3)+1){ km.row(i, 0, n, &st[0]); r.insert(r.end(), st.begin(), st.end()); } return r; });
+			// Gram derivative: kernels with a non-empty State inside the parallel derivative region of KernelTargetAlignment,
+			// and the (sequential) Gram-derivative helper called concurrently from user threads on one shared const kernel
+			AbstractKernelFunction<RealVector>* dk[] = {&gk, &ard, &wk};
+			char const* dnames[] = {"KernelTargetAlignment.evalDerivative[gaussian]", "KernelTargetAlignment.evalDerivative[ard]", "KernelTargetAlignment.evalDerivative[weightedsum]"};
+			for(int q = 0; q != 3; ++q){
+				KernelTargetAlignment<RealVector,unsigned int> kta(cl, dk[q]);
+				RealVector kp = dk[q]->parameterVector();
+				sweepTol(dnames[q], reps, [&]{ RealVector g; double v = kta.evalDerivative(kp, g); std::vector<double> r(1, v); for(std::size_t i = 0; i != g.size(); ++i) r.push_back(g(i)); return r; });
+			}
+			RealMatrix W(n, n); for(std::size_t i = 0; i != n; ++i) for(std::size_t j = 0; j != n; ++j) W(i,j) = double((i * 3 + j * 5) % 7) - 3.0;
+			W = RealMatrix(W + trans(W));
+			sweepTol("calculateKernelMatrixParameterDerivative[concurrent-callers,gaussian]", reps, [&]{
+				std::vector<RealVector> res(8);
+				#pragma omp parallel for
+				for(int c = 0; c < 8; ++c) res[c] = calculateKernelMatrixParameterDerivative(gk, inputs, W);
+				std::vector<double> r; for(auto const& v: res) for(std::size_t i = 0; i != v.size(); ++i) r.push_back(v(i)); for(std::size_t c = 1; c < 8; ++c) r.push_back(norm_inf(res[c] - res[0])); return r; });
 		}
 		{	// a non-linear two-layer model and a cross-entropy loss inside the ErrorFunction regions
 			LinearModel<RealVector, TanhNeuron> l1(d, 3, true); LinearModel<RealVector> l2(3, 3, true);
@@ -162,6 +365,32 @@ int main(){
 			CrossEntropy<unsigned int, RealVector> ce;
 			ErrorFunction<> E(cl, &net, &ce);
 			sweepTol("ErrorFunction[tanh-net,cross-entropy]", reps, [&]{ RealVector g; double v = E.evalDerivative(q, g); std::vector<double> r(1, v); r.push_back(E.eval(q)); for(std::size_t i = 0; i != g.size(); ++i) r.push_back(g(i)); return r; });
+			// dataset transformation by a model with a non-empty State (model(data) = transform(data, model))
+			net.setParameterVector(q);
+			sweepTol("transform(model with state)", reps, [&]{ Data<RealVector> r = net(inputs); std::vector<double> v; for(auto const& e: r.elements()) for(std::size_t i = 0; i != e.size(); ++i) v.push_back(e(i)); return v; });
+			// negative log-likelihood of a (stateful) network with one logistic output: both regions of NegativeLogLikelihood
+			LinearModel<RealVector, TanhNeuron> n1(d, 3, true); LinearModel<RealVector, LogisticNeuron> n2(3, 1, true);
+			ConcatenatedModel<RealVector> dens = n1 >> n2;
+			RealVector dq(dens.numberOfParameters());
+			for(std::size_t i = 0; i != dq.size(); ++i) dq(i) = (double(rng.below(9)) - 4.0) / 4.0;
+			NegativeLogLikelihood nll(inputs, &dens);
+			sweepTol("NegativeLogLikelihood.eval", reps, [&]{ return std::vector<double>(1, nll.eval(dq)); });
+			sweepTol("NegativeLogLikelihood.evalDerivative", reps, [&]{ RealVector g; double v = nll.evalDerivative(dq, g); std::vector<double> r(1, v); for(std::size_t i = 0; i != g.size(); ++i) r.push_back(g(i)); return r; });
+		}
+		{	// a kernel inside a model inside the parallel error function (kernel expansion over the data set itself),
+			// and an RBF layer (its State holds the squared distances and responses) in front of a linear layer
+			GaussianRbfKernel<RealVector> gk2(0.125);
+			KernelExpansion<RealVector> ke(&gk2, inputs, true, 2);
+			RealVector kq(ke.numberOfParameters());
+			for(std::size_t i = 0; i != kq.size(); ++i) kq(i) = (double(rng.below(9)) - 4.0) / 8.0;
+			ErrorFunction<> EK(reg, &ke, &loss);
+			sweepTol("ErrorFunction[kernel-expansion(gaussian)].eval", reps, [&]{ return std::vector<double>(1, EK.eval(kq)); });
+			RBFLayer rbf(d, 3); LinearModel<> lout(3, 2, true);
+			ConcatenatedModel<RealVector> rbfnet = rbf >> lout;
+			RealVector rp(rbfnet.numberOfParameters());
+			for(std::size_t i = 0; i != rp.size(); ++i) rp(i) = (double(rng.below(9)) - 4.0) / 8.0;
+			ErrorFunction<> ERB(reg, &rbfnet, &loss);
+			sweepTol("ErrorFunction[rbf-layer-net].evalDerivative", reps, [&]{ RealVector g; double v = ERB.evalDerivative(rp, g); std::vector<double> r(1, v); r.push_back(ERB.eval(rp)); for(std::size_t i = 0; i != g.size(); ++i) r.push_back(g(i)); return r; });
 		}
 		{	// the same stateful network inside the WEIGHTED error function (a model with a non-empty State: every
 			// thread needs its own state object), classification and regression labels
@@ -183,21 +412,37 @@ int main(){
 			WeightedLabeledData<RealVector,RealVector> wreg(reg, 1.0);
 			k = 0;
 			for(auto&& e: wreg.elements()){ e.weight = w[k++]; }
-			ErrorFunction<> ER(wreg, &rnet, &loss);
+			ErrorFunction<> ER(wreg, &rnet, &yloss);
 			sweep("WeightedErrorFunction[relu-net].evalDerivative", reps, [&]{ RealVector g; double v = ER.evalDerivative(rq, g); return bits(v) + "|" + vecbits(g); });
-			ErrorFunction<> EU(reg, &rnet, &loss);
+			ErrorFunction<> EU(reg, &rnet, &yloss);
 			sweep("ErrorFunction[relu-net].evalDerivative", reps, [&]{ RealVector g; double v = EU.evalDerivative(rq, g); return bits(v) + "|" + vecbits(g); });
 		}
-		{	sweep("transform(element-wise)", reps, [&]{ Data<RealVector> r = transform(inputs, AddOne()); std::string s; for(std::size_t b = 0; b != r.numberOfBatches(); ++b) s += matbits(r.batch(b)) + ";"; return s; });
-			sweep("transform(batch-wise)", reps, [&]{ Data<RealVector> r = transform(inputs, BatchDouble()); std::string s; for(std::size_t b = 0; b != r.numberOfBatches(); ++b) s += matbits(r.batch(b)) + ";"; return s; });
+		{	std::string t1, t2;
+			for(std::size_t b = 0; b != inputs.numberOfBatches(); ++b){ RealMatrix m1 = inputs.batch(b), m2 = inputs.batch(b); for(std::size_t i = 0; i != m1.size1(); ++i) for(std::size_t j = 0; j != m1.size2(); ++j){ m1(i,j) += 1; m2(i,j) *= 2; } t1 += matbits(m1) + ";"; t2 += matbits(m2) + ";"; }
+			sweepO("transform(element-wise)", reps, [&]{ Data<RealVector> r = transform(inputs, AddOne()); std::string s; for(std::size_t b = 0; b != r.numberOfBatches(); ++b) s += matbits(r.batch(b)) + ";"; return s; }, t1);
+			sweepO("transform(batch-wise)", reps, [&]{ Data<RealVector> r = transform(inputs, BatchDouble()); std::string s; for(std::size_t b = 0; b != r.numberOfBatches(); ++b) s += matbits(r.batch(b)) + ";"; return s; }, t2);
 		}
-		{	LinearKernel<RealVector> lk;
-			SimpleNearestNeighbors<RealVector,unsigned int> nn(cl, &lk);
+		{	LinearKernel<RealVector> lk; GaussianRbfKernel<RealVector> gk(0.5);
+			SimpleNearestNeighbors<RealVector,unsigned int> nn(cl, &lk), nng(cl, &gk);
 			RealMatrix queries(3, d);
 			for(std::size_t i = 0; i != 3; ++i) for(std::size_t c = 0; c != d; ++c) queries(i,c) = double(rng.below(9)) - 4.0;
-			std::size_t k = std::min<std::size_t>(n, 1 + rng.below(5));
-			// distances are sorted; labels of equidistant neighbours may legitimately differ, so compare distances only
-			sweep("SimpleNearestNeighbors.getNeighbors", reps, [&]{ auto r = nn.getNeighbors(queries, k); std::string s; for(auto const& e: r){ s += bits(e.key); s += ","; } return s; });
+			std::size_t kk[] = {1, std::min<std::size_t>(n, 1 + rng.below(5)), n};
+			// the thread-indexed heaps assume iteration b of the batch loop runs on a thread id < min(threads, batches):
+			// true for the static schedule of the library's pragma; under the dynamic build only thread counts <= batches are run
+			int maxT = 16;
+			#ifdef C20_DYNAMIC
+			maxT = (int)cl.numberOfBatches();
+			#endif
+			for(int q = 0; q != 3; ++q){
+				std::size_t k = kk[q];
+				// independent oracle: all distances sorted (distances are sorted in the result; labels of equidistant
+				// neighbours may legitimately differ, so compare distances only)
+				std::string o;
+				for(std::size_t pi = 0; pi != 3; ++pi){ std::vector<double> ds; for(std::size_t i = 0; i != n; ++i){ double s = 0; for(std::size_t c = 0; c != d; ++c) s += (queries(pi,c) - xs[i](c)) * (queries(pi,c) - xs[i](c)); ds.push_back(std::sqrt(s)); } std::sort(ds.begin(), ds.end()); for(std::size_t i = 0; i != k; ++i){ o += bits(ds[i]); o += ","; } }
+				std::string nm = std::string("SimpleNearestNeighbors.getNeighbors[k=") + (q == 0 ? "1" : q == 1 ? "mid" : "n") + "]";
+				sweepX(nm.c_str(), reps, [&]{ auto r = nn.getNeighbors(queries, k); std::string s; for(auto const& e: r){ s += bits(e.key); s += ","; } return s; }, &o, maxT);
+			}
+			if(maxT >= 1) sweepX("SimpleNearestNeighbors.getNeighbors[gaussian-metric]", reps, [&]{ auto r = nng.getNeighbors(queries, kk[1]); std::string s; for(auto const& e: r){ s += bits(e.key); s += ","; } return s; }, (std::string const*)0, maxT);
 		}
 		{	std::vector<RealVector> pts;
 			std::size_t m = std::min<std::size_t>(n, 7);
@@ -208,9 +453,50 @@ int main(){
 			auto render = [](std::vector<KeyValuePair<double,std::size_t> > const& r){ std::string s; for(auto const& e: r){ s += bits(e.key); s += ":"; s += std::to_string(e.value); s += ","; } return s; };
 			sweep("HypervolumeContributionMD.smallest", reps, [&]{ return render(hc.smallest(pts, k, ref)); });
 			sweep("HypervolumeContributionMD.largest", reps, [&]{ return render(hc.largest(pts, k, ref)); });
+			// the variants without reference point collect their results in a critical section (5 objectives: WFG algorithm);
+			// mutually non-dominated points with distinct coordinates so that at most 5 points are excluded as extreme
+			std::vector<RealVector> front;
+			while(front.size() != 9){
+				RealVector q(5); double s = 0; for(std::size_t c = 0; c != 4; ++c){ q(c) = double(rng.below(6)); s += q(c); } q(4) = 20.0 - s;
+				bool dup = false; for(auto const& f: front) if(norm_inf(f - q) == 0) dup = true;     // equal coordinate sums: distinct points are mutually non-dominated
+				if(!dup) front.push_back(q);
+			}
+			// (the selected contributions must not depend on the schedule; WHICH of several points with equal contribution
+			// is returned is reported separately)
+			auto keys = [](std::vector<KeyValuePair<double,std::size_t> > const& r){ std::string s; for(auto const& e: r){ s += bits(e.key); s += ","; } return s; };
+			auto idxs = [](std::vector<KeyValuePair<double,std::size_t> > const& r){ std::string s; for(auto const& e: r){ s += std::to_string(e.value); s += ","; } return s; };
+			sweep("HypervolumeContributionMD.smallest(no-reference).contributions", reps, [&]{ return keys(hc.smallest(front, 2)); });
+			sweep("HypervolumeContributionMD.largest(no-reference).contributions", reps, [&]{ return keys(hc.largest(front, 2)); });
+			sweep("HypervolumeContributionMD.smallest(no-reference).indices", reps, [&]{ return idxs(hc.smallest(front, 2)); });
+			sweep("HypervolumeContributionMD.largest(no-reference).indices", reps, [&]{ return idxs(hc.largest(front, 2)); });
+			// the approximation algorithm (parallel exact fallback inside its sampling loop); the global generator is
+			// re-seeded before every run, sampling itself is sequential
+			HypervolumeContributionApproximator ha;
+			sweep("HypervolumeContributionApproximator.smallest", reps, [&]{ random::globalRng.seed(4711); return render(ha.smallest(front, 1, RealVector(5, 21.0))); });
+		}
+		{	// random-forest training: per-tree generators seeded from the global one before the parallel loop
+			auto setup = [&](std::size_t trees){ random::globalRng.seed(1234 + (unsigned)a[0] % 1000); return trees; };
+			std::size_t nt = 2 + rng.below(7);
+			sweep("RFTrainer[classification].trees+predictions+oob", reps, [&]{
+				setup(nt); RFTrainer<unsigned int> tr(false, true); tr.setNTrees(nt); tr.setNodeSize(1 + n / 10);
+				RFClassifier<unsigned int> f; tr.train(f, cl);
+				std::string s = forestTrees(f, true) + "|" + bits(f.OOBerror()) + "|";
+				Data<unsigned int> pr = f(cl.inputs()); for(auto const& e: pr.elements()) s += std::to_string(e); return s; });
+			sweepTol("RFTrainer[regression].predictions+oob", reps, [&]{
+				setup(nt); RFTrainer<RealVector> tr(false, true); tr.setNTrees(nt); tr.setNodeSize(1 + n / 10);
+				RFClassifier<RealVector> f; static_cast<AbstractWeightedTrainer<RFClassifier<RealVector> >&>(tr).train(f, reg);
+				std::vector<double> r(1, f.OOBerror()); r.push_back(double(shorten(forestTrees(f, true)).size()));
+				Data<RealVector> pr = f(reg.inputs()); for(auto const& e: pr.elements()) for(std::size_t i = 0; i != e.size(); ++i) r.push_back(e(i)); return r; });
+			// (only with n >= 20: a tree whose out-of-bag set is empty makes computeFeatureImportances index an empty batch — outside C20)
+			if(n >= 20) sweepTol("RFTrainer[classification].featureImportances", reps, [&]{
+				setup(nt); RFTrainer<unsigned int> tr(true, false); tr.setNTrees(nt); tr.setNodeSize(1 + n / 10);
+				RFClassifier<unsigned int> f; tr.train(f, cl);
+				std::vector<double> r; for(std::size_t i = 0; i != f.featureImportances().size(); ++i) r.push_back(f.featureImportances()(i)); return r; },
+				"rf-feature-importances-depend-on-schedule");
 		}
 		{	// shared copies and batch subsets of one dataset, concurrently from several threads
 			std::string bad; int made = 0;
+			WeightedLabeledData<RealVector,RealVector> wsrc(reg, 2.0);
 			for(int th: THREADS){
 				omp_set_num_threads(th);
 				#pragma omp parallel for reduction(+:made)
@@ -220,20 +506,29 @@ int main(){
 					for(std::size_t b = r % 2; b < reg.numberOfBatches(); b += 2) idx.push_back(b);
 					RegressionDataset sub = reg.indexedSubset(idx);
 					Data<RealVector> in = copy.inputs();
+					WeightedLabeledData<RealVector,RealVector> wcopy = wsrc;
+					RegressionDataset copy2; copy2 = copy;          // assignment of a shared copy
 					copy.makeIndependent();
 					sched_yield();
-					std::size_t e = 0; bool ok = copy.numberOfElements() == n && in.numberOfElements() == n;
+					std::size_t e = 0; bool ok = copy.numberOfElements() == n && in.numberOfElements() == n && copy2.numberOfElements() == n && wcopy.numberOfElements() == n;
 					for(auto const& el: copy.elements()){ if(norm_inf(el.input - xs[e]) != 0 || norm_inf(el.label - ys[e]) != 0) ok = false; ++e; }
-					std::size_t cnt = 0; for(std::size_t b: idx) cnt += batchSize(reg.batch(b));
-					if(sub.numberOfElements() != cnt) ok = false;
+					e = 0; for(auto const& el: copy2.elements()){ if(norm_inf(el.input - xs[e]) != 0 || norm_inf(el.label - ys[e]) != 0) ok = false; ++e; }
+					// the subset holds exactly the elements of the selected batches, in order
+					std::size_t cnt = 0; std::vector<std::size_t> which;
+					{ std::size_t start = 0; for(std::size_t b = 0; b != reg.numberOfBatches(); ++b){ std::size_t sz = batchSize(reg.batch(b)); if(b % 2 == (std::size_t)(r % 2)) for(std::size_t i = 0; i != sz; ++i) which.push_back(start + i); start += sz; } }
+					for(std::size_t b: idx) cnt += batchSize(reg.batch(b));
+					if(sub.numberOfElements() != cnt || which.size() != cnt) ok = false;
+					e = 0; for(auto const& el: sub.elements()){ if(e < which.size() && (norm_inf(el.input - xs[which[e]]) != 0 || norm_inf(el.label - ys[which[e]]) != 0)) ok = false; ++e; }
 					++made;
 					if(!ok){
 						#pragma omp critical
-						bad = " !oracle shared-copy-wrong-contents threads=" + std::to_string(th);
+						bad = " !oracle shared-copy-wrong-contents routine=Dataset.sharedCopies threads=" + std::to_string(th);
 					}
 				}
 			}
-			std::cout << "routine=Dataset.sharedCopies runs=" << made << " result=ok" << bad << "\n";
+			// the source is untouched by all of this
+			std::size_t e = 0; for(auto const& el: reg.elements()){ if(norm_inf(el.input - xs[e]) != 0 || norm_inf(el.label - ys[e]) != 0) bad = " !oracle shared-copy-source-modified routine=Dataset.sharedCopies threads=0"; ++e; }
+			std::cout << "routine=Dataset.sharedCopies runs=" << made << " threads=" << threadList() << " sched=user-threads perturbed=0 oracle=independent result=ok" << bad << "\n";
 		}
 	}
 	return 0;
